@@ -68,8 +68,8 @@ Theorem C15_inc_equals_fresh_asis_refuted :
 Proof. exact inc_equals_fresh_asis_refuted. Qed.
 Print Assumptions C15_inc_equals_fresh_asis_refuted.
 
-(* How the cycle is named (recover_cycle, src/query.rs:465).  Under the stated shape of salsa's
-   participant list (Conc/Modules.v, `cycle_keys`): the code as it stands names the whole cycle only
+(* How the cycle is named (recover_cycle, src/query.rs).  Under the stated shape of salsa's
+   participant list (Conc/Modules.v, `cycle_keys`): the original extraction names the whole cycle only
    when every member's import query is executed ... *)
 Theorem C15_report_asis_partial : forall (exec : name -> bool) (m1 : name) (rest : list name),
   (forall m, In m rest -> exec m = true) -> report_asis (cycle_keys exec (m1 :: rest)) = m1 :: rest.
@@ -82,7 +82,8 @@ Theorem C15_report_asis_refuted :
 Proof. exact report_asis_refuted. Qed.
 Print Assumptions C15_report_asis_refuted.
 
-(* ... whereas the repaired extraction (fixes/C15-cycle-chain-revalidated-import.patch) always names it. *)
+(* ... whereas the repaired extraction (`cycle_modules`, fixes/C15-cycle-chain-revalidated-import.patch,
+   applied to /repo) always names it. *)
 Theorem C15_report_fixed_chain : forall (exec : name -> bool) (c : list name),
   NoDup c -> c <> [] -> report_fixed (cycle_keys exec c) = c.
 Proof. exact report_fixed_chain. Qed.
